@@ -244,9 +244,82 @@ def _select_rule(chk, prog):
         raise AnalysisBroken("cfun_channel_choice: only %d channel operations found" % n)
 
 
+def _wakepass_rule(chk, prog):
+    """A giver that had to block has ALREADY put its item into the queue; it is parked only to be told when the item
+    was taken.  So every take that removes an item must look at write_pending and wake one giver - whatever the
+    remaining fill level - and every give must look at read_pending before queueing (a parked taker means the
+    queue is empty and the value goes straight to it).  Must-pass-through on the CFG of the two primitives."""
+    rule = "C06-WAKEPASS"
+    chk.rule(rule, "a take that dequeued an item always goes on to pop write_pending; a give pops read_pending before it enqueues")
+    tu = prog.tus["ev.c"]
+
+    def qcall(x, fn_names, field):
+        return (x.k == "call" and x.callee in fn_names and x.args
+                and any(y.k == "mem" and y.field == field and y.rec == "JanetChannel" for y in x.args[0].walk()))
+
+    # --- take
+    fn = tu.funcs.get("janet_channel_pop_with_lock")
+    if fn is None:
+        raise AnalysisBroken("janet_channel_pop_with_lock not found")
+    chk.analysed(fn)
+
+    def t_pop(st, x):
+        if qcall(x, ("janet_q_pop",), "write_pending"):
+            return st | {"tried"}
+        return st
+
+    def e_pop(st, blk, succ, cond, truth):
+        c, t = flow.strip_not(flow.strip_expect(cond), truth)
+        if c is not None and qcall(c, ("janet_q_pop",), "items"):
+            return st | {"took"} if not t else st | {"empty"}
+        return st
+    IN, OUT, T = flow.forward_paths(fn, frozenset(), t_pop, edge=e_pop)
+    n = 0
+    for b, kind in flow.exits(fn):
+        if kind != "return" or b.id not in OUT:
+            continue
+        n += 1
+        chk.instance(rule)
+        bad = [ps for ps in OUT[b.id] if "took" in ps and "tried" not in ps]
+        last = b.elems[-1] if b.elems else None
+        if bad:
+            chk.violation(rule, "ev.c", fn.name, "return-without-wake", last.loc if last is not None else fn.loc,
+                          "janet_channel_pop_with_lock can return after removing an item without looking at write_pending: the giver "
+                          "whose value was just taken (its item is already in the queue) stays suspended forever")
+        else:
+            chk.ok(rule, "%s: return at %s only after the giver queue was consulted (or nothing was taken)" % (fn.name, last.loc if last is not None else "?"))
+    if not any("took" in ps for S in OUT.values() for ps in S):
+        raise AnalysisBroken("janet_channel_pop_with_lock: the dequeue from channel->items was not recognised")
+    # --- give
+    fn = tu.funcs.get("janet_channel_push_with_lock")
+    if fn is None:
+        raise AnalysisBroken("janet_channel_push_with_lock not found")
+    chk.analysed(fn)
+
+    def t_push(st, x):
+        if qcall(x, ("janet_q_pop",), "read_pending"):
+            return st | {"tried"}
+        return st
+    IN, OUT, T = flow.forward_paths(fn, frozenset(), t_push)
+    m = 0
+    for x, S in flow.states_at(fn, IN, T):
+        if qcall(x, ("janet_q_push",), "items"):
+            m += 1
+            chk.instance(rule)
+            if all("tried" in ps for ps in S):
+                chk.ok(rule, "%s: items are queued only after read_pending was consulted" % fn.name)
+            else:
+                chk.violation(rule, "ev.c", fn.name, "enqueue-before-readers", x.loc,
+                              "janet_channel_push_with_lock queues the value without first popping read_pending: a taker parked on the "
+                              "empty channel is not handed the value and is never woken")
+    if m < 1:
+        raise AnalysisBroken("janet_channel_push_with_lock: enqueue into channel->items not found")
+
+
 def run(chk):
     prog = Program.load("default", units=["ev.c"])
     _select_rule(chk, prog)
     _nolostwake_rule(chk, prog)
     _sched_rule(chk, prog)
     _queue_rule(chk, prog)
+    _wakepass_rule(chk, prog)
